@@ -95,6 +95,9 @@ Fixpoint nss (v v' : val) {struct v'} : bool :=
                         existsb (fun x => nss x k') (children v) && existsb (fun x => nss x x') (children v)) kv
          | _ => false
          end)
+     (* or the input is neither a string nor a collection (None standing for "no items" in a MultiInputObj[File]
+        field, say): nothing was split *)
+     || negb (is_coll v || is_strlike v)
    else negb (is_coll v && is_strlike v')).
 
 End NoStrSeq.
